@@ -64,11 +64,11 @@ Definition sans_ok (a : sans) (x : sexpect) : bool :=
 Record kcase := {
   k_classes : classes;
   k_heap : heap;                 (* after sealing, when the history starts *)
-  k_flags : list bool;           (* sealed flags at that moment *)
+  k_cache : cstate;              (* sealed flags and cached identifiers at that moment *)
   k_ops : list sop;
   k_expect : list sexpect;
   k_final : heap }.              (* the graph the real objects hold after the history *)
 
 Definition check_kcase (c : kcase) : bool :=
-  let r := srun sha256 (k_classes c) (hash_fuel (k_heap c) + 64) (k_heap c, map centry0 (k_flags c)) (k_ops c) in
+  let r := srun sha256 (k_classes c) (hash_fuel (k_heap c) + 64) (k_heap c, k_cache c) (k_ops c) in
   list_eqb2 sans_ok (snd r) (k_expect c) && list_eqb (node_eqb (k_classes c)) (fst (fst r)) (k_final c).
